@@ -35,6 +35,8 @@ var instrumented = []string{
 	"go/appencryption/pkg/persistence",
 	"go/appencryption/pkg/kms",
 	"go/appencryption/pkg/crypto/aead",
+	"go/appencryption/plugins/aws-v1/kms",
+	"go/appencryption/plugins/aws-v2/kms",
 	"go/securememory",
 	"go/securememory/protectedmemory",
 	"go/securememory/memguard",
@@ -445,7 +447,12 @@ func (r *fileRewriter) walkStmt(s ast.Stmt) ast.Stmt {
 		}
 		return n
 	case *ast.DeferStmt:
-		r.walkExprIn(n.Call)
+		// (defer close(ch) must become defer ch.Close(): rewrite the call itself, not only its children)
+		if ne, ok := r.walkExpr(n.Call).(*ast.CallExpr); ok {
+			n.Call = ne
+		} else {
+			r.walkExprIn(n.Call)
+		}
 		return n
 	case *ast.DeclStmt:
 		r.walkDecl(n.Decl)
